@@ -8,6 +8,7 @@ import (
 	"crypto/sha256"
 	"fmt"
 	"sort"
+	"strconv"
 	"strings"
 
 	"vhlib/ref"
@@ -75,7 +76,11 @@ var ruleNames = []string{"S", "A", "B", "D", "F", "G", "H", "J"}
 func New(tag string, bodies ...*E) *Grammar {
 	g := &Grammar{G: &ref.Grammar{}, Tag: tag}
 	for i, b := range bodies {
-		g.G.Rules = append(g.G.Rules, ref.Rule{Name: ruleNames[i], E: b})
+		name := "R" + strconv.Itoa(i)
+		if i < len(ruleNames) {
+			name = ruleNames[i]
+		}
+		g.G.Rules = append(g.G.Rules, ref.Rule{Name: name, E: b})
 	}
 	for _, r := range g.G.Rules {
 		walk(r.E, func(e *E) {
